@@ -182,6 +182,19 @@ theorem symbol_table_bad_entsize (f : ElfBytes) (sh strsh : SectionHeader)
   unfold ElfBytes.sectionDataAsSymbolTable EntryParser.validateEntsize
   simp [h, Out.bind, Symbol.ep]
 
+/-- **`.gnu.version`**: a version-index table whose `sh_entsize` is not 2 is rejected with
+    `BadEntsize(found, 2)` — whichever `SHT_GNU_VERSYM` header the scan settled on. -/
+theorem versym_bad_entsize (f : ElfBytes) (shdrs : Table SectionHeader) (hs : f.shdrs = some shdrs)
+    (versym : SectionHeader) (nd df : Option SectionHeader)
+    (hscan : ElfBytes.verScan (shdrs.data.len + 1) shdrs.iter none none none = .ok (some versym, nd, df))
+    (hne : versym.sh_entsize ≠ 2) :
+    f.symbolVersionTable = .err (.BadEntsize versym.sh_entsize 2) := by
+  unfold ElfBytes.symbolVersionTable
+  simp only [hs, hscan, Out.bind]
+  unfold EntryParser.validateEntsize
+  have : VersionIndex.ep.size f.ehdr.cls = 2 := by cases f.ehdr.cls <;> rfl
+  simp [this, hne]
+
 /-- The section-name string table is the section at `e_shstrndx`, or at `shdr[0].sh_link` when
     `e_shstrndx = SHN_XINDEX (0xffff)`; `SHN_UNDEF` means none. -/
 theorem shstrndx_rule (f : ElfBytes) (shdrs : Table SectionHeader) (hs : f.shdrs = some shdrs) :
